@@ -1,0 +1,45 @@
+//go:build verif
+
+package controller
+
+// Contracts for package controller, read by /verif/govc (comment-only file, compiled only with -tags verif).
+
+//@ pure distinct(f *DefaultFanController) []int = f.pwmValuesWithDistinctTarget
+//@ pure mapInv(f *DefaultFanController) bool = len(distinct(f)) >= 1 && len(distinct(f)) <= 1073741824 && util.strictlyAsc(distinct(f)) && (forall j :: 0 <= j && j < len(distinct(f)) ==> util.inInt32(distinct(f)[j]) && distinct(f)[j] in f.pwmMap)
+//@ pure nearestIn(a []int, x int, t int) bool = (exists k :: 0 <= k && k < len(a) && a[k] == x) && (forall j :: 0 <= j && j < len(a) ==> abs(a[j] - t) >= abs(x - t))
+
+//@ func (*DefaultFanController).findClosestDistinctTarget
+//@   props C12
+//@   requires mapInv(f) && util.inInt32(target)
+//@   ensures[C12.nearest C01 C05] nearestIn(distinct(f), result, target)
+//@   ensures[C12.exact C01 C05]   (forall k :: 0 <= k && k < len(distinct(f)) && distinct(f)[k] == target ==> result == target)
+//@   modifies nothing
+
+//@ func (*DefaultFanController).applyPwmMapping
+//@   props C12
+//@   ensures result == f.pwmMap[target]
+//@   modifies nothing
+
+//@ func (*DefaultFanController).getPwm
+//@   requires fans.fanWF(f.fan)
+//@   modifies f.fan.(*fans.HwMonFan).Pwm, f.fan.(*fans.FileFan).Pwm, f.fan.(*fans.CmdFan).Pwm, procWorld
+
+//@ func (*DefaultFanController).setPwm
+//@   props C12
+//@   requires mapInv(f) && fans.fanWF(f.fan) && util.inInt32(target)
+//@   atcall[C12.write C01 C05] SetPwm: exists s :: nearestIn(distinct(f), s, target) && pwm == f.pwmMap[s]
+//@   ensures[last] f.lastSetPwm != nil && *f.lastSetPwm == target
+//@   ensures[C12.once C01 C05] pwmWrites[f.fan] == old(pwmWrites)[f.fan] || (pwmWrites[f.fan] == old(pwmWrites)[f.fan] + 1 && exists s :: nearestIn(distinct(f), s, target) && lastPwm[f.fan] == f.pwmMap[s])
+//@   modifies f.lastSetPwm, pwmWrites, lastPwm, fileInt, procWorld, f.fan.(*fans.HwMonFan).Pwm, f.fan.(*fans.FileFan).Pwm, f.fan.(*fans.CmdFan).Pwm
+
+//@ func (*DefaultFanController).updateDistinctPwmValues
+//@   props C12
+//@   requires fans.fanWF(f.fan)
+//@   requires forall k :: k in f.pwmMap ==> f.pwmMap[k] != -1
+//@   ensures[C12.asc C01 C05]    util.strictlyAsc(distinct(f))
+//@   ensures[C12.subset C01 C05] forall j :: 0 <= j && j < len(distinct(f)) ==> distinct(f)[j] in f.pwmMap
+//@   ensures[C12.first]    forall k :: k in f.pwmMap ==> len(distinct(f)) > 0 && distinct(f)[0] <= k
+//@   ensures[C12.adjacent] forall j :: 1 <= j && j < len(distinct(f)) ==> f.pwmMap[distinct(f)[j-1]] != f.pwmMap[distinct(f)[j]]
+//@   ensures[C12.runs]     forall k, j :: k in f.pwmMap && 0 <= j && j < len(distinct(f)) && distinct(f)[j] <= k && (j == len(distinct(f))-1 || k < distinct(f)[j+1]) ==> f.pwmMap[distinct(f)[j]] == f.pwmMap[k]
+//@   ensures[C12.nonempty C01 C05] len(f.pwmMap) > 0 ==> len(distinct(f)) > 0
+//@   modifies f.pwmValuesWithDistinctTarget
